@@ -214,6 +214,7 @@ func runC08(c *Ctx) {
 	// R-C08-4
 	scheduleExits(c, "R-C08-4")
 	scheduledOnly(c, "R-C08-4")
+	inFlightAwaited(c, "R-C08-5")
 	signalOrder(c, "R-C08-3")
 }
 
@@ -311,23 +312,23 @@ func scheduledOnly(c *Ctx, rule string) {
 		ok := false
 		fact := "closure not handed to the scheduler"
 		if site, isMC := closureSite(cl.Parent(), cl).(*ssa.MakeClosure); isMC && site.Referrers() != nil {
-			for _, r := range *site.Referrers() {
-				ci, isCall := r.(ssa.CallInstruction)
-				if !isCall {
-					continue
-				}
+			// the closure (or the result of the factory that returns it) must flow only into Delay
+			delays, other := c.delayUses(site, 0)
+			if other != "" {
+				fact = other
+			}
+			ok = len(delays) > 0 && other == ""
+			for _, ci := range delays {
 				f := an.CalleeObj(ci.Common())
-				if f != nil && f.Name() == "Delay" && f.Pkg() != nil && f.Pkg().Path() == "github.com/mdlayher/schedgroup" {
-					grp := c.XO.Of(ci.Common().Args[0])
-					okGrp := grp.Op == an.OpCall && grp.Fn != nil && grp.Fn.String() == "github.com/mdlayher/schedgroup.New" && len(grp.Args) == 1 &&
-						grp.Args[0].Contains(func(e *an.Expr) bool {
-							return e.Op == an.OpCall && e.Fn != nil && e.Fn.String() == "context.WithCancel"
-						})
-					ok = okGrp
-					fact = "scheduled with " + f.FullName() + " on " + grp.String()
-				} else if f != nil {
-					fact = "closure passed to " + f.FullName()
+				grp := c.XO.Of(ci.Common().Args[0])
+				okGrp := grp.Op == an.OpCall && grp.Fn != nil && grp.Fn.String() == "github.com/mdlayher/schedgroup.New" && len(grp.Args) == 1 &&
+					grp.Args[0].Contains(func(e *an.Expr) bool {
+						return e.Op == an.OpCall && e.Fn != nil && e.Fn.String() == "context.WithCancel"
+					})
+				if !okGrp {
+					ok = false
 				}
+				fact = "scheduled with " + f.FullName() + " on " + grp.String()
 			}
 		}
 		c.R.Check(ok, rule, c.fname(cl)+":scheduled-on-waited-group", c.fname(cl), c.pos(cl.Pos()), fact,
@@ -335,6 +336,57 @@ func scheduledOnly(c *Ctx, rule string) {
 			"a pending transmission is not bound to the scheduler: it can fire after the final RA and after Run has returned")
 	}
 	c.R.Check(n >= 1, rule, c.fname(sch)+":worker-closures", c.fname(sch), c.pos(sch.Pos()), fmt.Sprintf("%d worker closure(s)", n), ">= 1 (2 confirmed by reading: unicast, multicast)", "anchor-missing")
+}
+
+// delayUses follows a task value (a closure, or the result of a call to a
+// factory that returns it) to the schedgroup Delay calls it is handed to.
+// other is non-empty when the value is used in any other way.
+func (c *Ctx) delayUses(v ssa.Value, depth int) (delays []ssa.CallInstruction, other string) {
+	if v.Referrers() == nil || depth > 3 {
+		return nil, "task value has no tracked uses"
+	}
+	for _, r := range *v.Referrers() {
+		switch r := r.(type) {
+		case *ssa.DebugRef:
+		case *ssa.Return:
+			// returned by a factory: every call of the factory is followed in turn
+			f := r.Parent()
+			n := 0
+			for _, caller := range c.srcFuncs() {
+				for _, ci := range an.CallsIn(caller) {
+					if an.StaticCallee(ci.Common()) != f {
+						continue
+					}
+					n++
+					val, isVal := ci.(ssa.Value)
+					if !isVal {
+						return delays, "factory " + c.fname(f) + " started with go/defer"
+					}
+					d2, o2 := c.delayUses(val, depth+1)
+					delays = append(delays, d2...)
+					if o2 != "" {
+						other = o2
+					}
+				}
+			}
+			if n == 0 {
+				other = "closure returned by " + c.fname(f) + ", which nothing calls statically"
+			}
+		case ssa.CallInstruction:
+			fo := an.CalleeObj(r.Common())
+			args := r.Common().Args
+			if fo != nil && fo.Name() == "Delay" && fo.Pkg() != nil && fo.Pkg().Path() == "github.com/mdlayher/schedgroup" && len(args) > 0 && args[len(args)-1] == v {
+				delays = append(delays, r)
+			} else if fo != nil {
+				other = "closure passed to " + fo.FullName()
+			} else {
+				other = "closure called or passed to a dynamic call"
+			}
+		default:
+			other = fmt.Sprintf("closure used by %T", r)
+		}
+	}
+	return delays, other
 }
 
 type selArmInfo struct {
@@ -487,4 +539,231 @@ func c08Terminator(c *Ctx) {
 				"SIGHUP is not handled: a reload kills the process without the reload semantics")
 		}
 	}
+}
+
+// resolveCaptured follows a captured variable (FreeVar) of a closure through
+// the chain of closure creation sites to the local variable it denotes.
+func resolveCaptured(v ssa.Value) ssa.Value {
+	for depth := 0; depth < 6; depth++ {
+		fv, ok := v.(*ssa.FreeVar)
+		if !ok {
+			return v
+		}
+		f := fv.Parent()
+		if f == nil || f.Parent() == nil {
+			return v
+		}
+		idx := -1
+		for i, x := range f.FreeVars {
+			if x == fv {
+				idx = i
+			}
+		}
+		mc, ok := closureSite(f.Parent(), f).(*ssa.MakeClosure)
+		if !ok || idx < 0 || idx >= len(mc.Bindings) {
+			return v
+		}
+		v = mc.Bindings[idx]
+	}
+	return v
+}
+
+// libraryWaitWaits reports whether every returning path of
+// schedgroup.(*Group).Wait passes through sync.(*WaitGroup).Wait, i.e. whether
+// the library's Wait can be relied on to wait for tasks that are running.
+func (c *Ctx) libraryWaitWaits() (bool, string) {
+	var wait *ssa.Function
+	for _, pkg := range c.P.SSA.AllPackages() {
+		if pkg.Pkg.Path() != "github.com/mdlayher/schedgroup" {
+			continue
+		}
+		if t := pkg.Type("Group"); t != nil {
+			wait = c.P.SSA.LookupMethod(types.NewPointer(t.Type()), pkg.Pkg, "Wait")
+		}
+	}
+	if wait == nil || wait.Blocks == nil {
+		return false, "schedgroup.(*Group).Wait not found in the loaded program"
+	}
+	ps, err := c.XO.Paths(wait, an.PathOpts{EmitCut: true, MaxPaths: 10000})
+	if err != nil {
+		return false, "paths of schedgroup Wait not enumerable: " + err.Error()
+	}
+	nRet, nBare := 0, 0
+	for _, p := range ps {
+		if p.Ret == nil {
+			continue
+		}
+		nRet++
+		waits := callsOnPath(p, func(cc *ssa.CallCommon) bool {
+			f := an.CalleeObj(cc)
+			return f != nil && f.Name() == "Wait" && f.Pkg() != nil && f.Pkg().Path() == "sync"
+		})
+		if len(waits) == 0 {
+			nBare++
+		}
+	}
+	return nRet > 0 && nBare == 0, fmt.Sprintf("schedgroup.(*Group).Wait: %d of %d returning path(s) do not wait on the task WaitGroup (it returns at once when the context is canceled)", nBare, nRet)
+}
+
+// inFlightAwaited (R-C08-5): a transmission that is already running when the
+// scheduler stops is waited for before schedule() returns — otherwise it can
+// complete after the final RA and after Run has returned. Accepted mechanisms:
+// (1) the group's Wait provably waits for running tasks (decided on the
+// library's own code), or (2) every worker holds a sync.RWMutex for reading
+// around its transmission and re-checks the context after acquiring it, and
+// every exit of schedule() write-locks the same mutex (a barrier).
+func inFlightAwaited(c *Ctx, rule string) {
+	sch := c.P.Method("internal/corerad", "Advertiser", "schedule")
+	if sch == nil {
+		return
+	}
+	fn := c.fname(sch)
+	libOK, libFact := c.libraryWaitWaits()
+
+	isMutexCall := func(cc *ssa.CallCommon, names ...string) (ssa.Value, bool) {
+		f := an.CalleeObj(cc)
+		if f == nil || f.Pkg() == nil || f.Pkg().Path() != "sync" || cc.IsInvoke() || len(cc.Args) == 0 {
+			return nil, false
+		}
+		for _, n := range names {
+			if f.Name() == n {
+				return resolveCaptured(cc.Args[0]), true
+			}
+		}
+		return nil, false
+	}
+	// workers
+	var closures []*ssa.Function
+	var collect func(f *ssa.Function)
+	collect = func(f *ssa.Function) {
+		for _, a := range f.AnonFuncs {
+			closures = append(closures, a)
+			collect(a)
+		}
+	}
+	collect(sch)
+	for _, f := range c.srcFuncs() {
+		if f.Parent() == nil && f != sch && !anchorFuncs[c.fname(f)] {
+			if ok, _ := c.reachedOnlyFrom(f, func(root *ssa.Function) bool { return root == sch }); ok && len(c.callersOf()[f]) > 0 {
+				collect(f)
+			}
+		}
+	}
+	var barrier ssa.Value
+	workersOK := true
+	nWorkers := 0
+	workerFact := ""
+	for _, cl := range closures {
+		transmits := false
+		for _, ci := range an.CallsIn(cl) {
+			if an.CallIs(ci.Common(), PkgCorerad, "Advertiser", "sendWorker") || an.CallIs(ci.Common(), PkgCorerad, "Advertiser", "send") {
+				transmits = true
+			}
+		}
+		if !transmits {
+			continue
+		}
+		nWorkers++
+		for _, wp := range c.pathsO(rule, cl, an.PathOpts{}) {
+			var lock ssa.Value
+			unlocked, rechecked, sent := false, false, false
+			var errCall ssa.Value
+			wp.Instrs(func(in ssa.Instruction) {
+				ci, ok := in.(ssa.CallInstruction)
+				if !ok {
+					return
+				}
+				cc := ci.Common()
+				if l, ok := isMutexCall(cc, "RLock", "Lock"); ok && !sent {
+					if _, isDefer := in.(*ssa.Defer); !isDefer {
+						lock = l
+					}
+				}
+				if l, ok := isMutexCall(cc, "RUnlock", "Unlock"); ok && lock != nil && l == lock {
+					if _, isDefer := in.(*ssa.Defer); isDefer || sent {
+						unlocked = true
+					}
+				}
+				if cc.IsInvoke() && cc.Method.Name() == "Err" && lock != nil && !sent {
+					if v, isV := in.(ssa.Value); isV {
+						errCall = v
+					}
+				}
+				if an.CallIs(cc, PkgCorerad, "Advertiser", "sendWorker") || an.CallIs(cc, PkgCorerad, "Advertiser", "send") {
+					sent = true
+				}
+			})
+			if !sent {
+				continue
+			}
+			if errCall != nil {
+				for _, a := range wp.Atoms {
+					x, y, op, ok := effCmp(a)
+					if ok && exprIsNil(y) && op == token.EQL && x.V == errCall {
+						rechecked = true
+					}
+				}
+			}
+			if lock == nil || !unlocked || !rechecked {
+				workersOK = false
+				workerFact = fmt.Sprintf("%s transmits with in-flight lock held=%v, released=%v, context re-checked after acquiring=%v", c.fname(cl), lock != nil, unlocked, rechecked)
+				continue
+			}
+			if barrier == nil {
+				barrier = lock
+			} else if barrier != lock {
+				workersOK = false
+				workerFact = "workers use different locks"
+			}
+		}
+	}
+	if nWorkers == 0 {
+		workersOK = false
+		workerFact = "no transmitting worker closure found"
+	}
+	// exits
+	exitsOK := true
+	exitFact := ""
+	nExits := 0
+	for _, p := range c.pathsO(rule, sch, an.PathOpts{EmitCut: true}) {
+		if p.Ret == nil {
+			continue
+		}
+		nExits++
+		locked := false
+		p.Instrs(func(in ssa.Instruction) {
+			ci, ok := in.(ssa.CallInstruction)
+			if !ok {
+				return
+			}
+			if _, isDefer := in.(*ssa.Defer); isDefer {
+				return
+			}
+			if l, ok := isMutexCall(ci.Common(), "Lock"); ok && barrier != nil && l == barrier {
+				locked = true
+			}
+		})
+		if !locked {
+			exitsOK = false
+			exitFact = "exit at " + c.pos(p.Ret.Pos()) + " does not take the in-flight lock for writing"
+		}
+	}
+	barrierOK := workersOK && exitsOK && nExits > 0
+	fact := libFact
+	switch {
+	case libOK:
+		fact = "schedgroup Wait waits for running tasks on every path"
+	case barrierOK:
+		fact += fmt.Sprintf("; barrier: %d worker closure(s) hold the in-flight lock while transmitting and re-check the context, %d exit(s) write-lock it", nWorkers, nExits)
+	default:
+		if workerFact != "" {
+			fact += "; " + workerFact
+		}
+		if exitFact != "" {
+			fact += "; " + exitFact
+		}
+	}
+	c.R.Check(libOK || barrierOK, rule, fn+":in-flight-transmissions-awaited", fn, c.pos(sch.Pos()), fact,
+		"a transmission already running when the scheduler stops completes before schedule() returns (group Wait that waits, or a reader/writer barrier)",
+		"an RA in flight when the advertiser stops is sent after the final RA / after Run has returned")
 }
